@@ -1577,7 +1577,8 @@ where
     #[inline(always)]
     pub fn skip_one(&mut self) -> Result<(&'de [u8], ParseStatus)> {
         let ch = self.skip_space();
-        let start = self.read.index() - 1;
+        // the index is zero when the input is empty
+        let start = self.read.index().saturating_sub(1);
         let mut status = ParseStatus::None;
         match ch {
             Some(c @ b'-' | c @ b'0'..=b'9') => {
@@ -1603,7 +1604,8 @@ where
     #[inline(always)]
     pub fn skip_one_unchecked(&mut self) -> Result<(&'de [u8], ParseStatus)> {
         let ch = self.skip_space();
-        let start = self.read.index() - 1;
+        // the index is zero when the input is empty
+        let start = self.read.index().saturating_sub(1);
         let mut status = ParseStatus::None;
         match ch {
             Some(b'-' | b'0'..=b'9') => self.skip_number_unsafe(),
